@@ -689,10 +689,14 @@ Qed.
 Definition structural (m : fmsg) : bool :=
   match m with MHasDotgit | MGitmodulesSymlink => false | _ => true end.
 
-Lemma written_clean_structural es b :
+(* the messages that remain possible on a written tree: the two name disguises *)
+Lemma written_fsck_shape es b :
   Forall (fun e => List.length (t_hash e) = 20%nat) es ->
   encode es = Some b ->
-  forallb (fun m => negb (structural m)) (git_fsck_tree 20 b) = true.
+  git_fsck_tree 20 b =
+  (if existsb (fun e => git_has_dotgit (r_name e)) (map raw_of es) then [MHasDotgit] else []) ++
+  (if existsb (fun e => (Z.land (r_mode e) 61440 =? 40960)%Z && git_is_dotgitmodules (r_name e)) (map raw_of es)
+   then [MGitmodulesSymlink] else []).
 Proof.
   intros Hlen Henc. unfold git_fsck_tree. rewrite (encode_git_parse es b Hlen Henc).
   unfold encode in Henc. destruct (v_invalid (validate es)) eqn:V; [discriminate|]. clear Henc.
@@ -719,7 +723,15 @@ Proof.
   { apply existsb_map_false. intros e He. rewrite Forall_forall in Hok. destruct (Hok e He) as (_ & _ & _ & M & _).
     destruct (oct_valid _ (valid_mode_in _ M)) as (_ & _ & _ & O). cbn [raw_of r_mtext].
     destruct (oct_of (t_mode e)) as [|c r]; [reflexivity|]. now apply negb_true_iff in O. }
-  rewrite A1, A2, A3, A4, A5. cbn [app].
+  rewrite A1, A2, A3, A4, A5. reflexivity.
+Qed.
+
+Lemma written_clean_structural es b :
+  Forall (fun e => List.length (t_hash e) = 20%nat) es ->
+  encode es = Some b ->
+  forallb (fun m => negb (structural m)) (git_fsck_tree 20 b) = true.
+Proof.
+  intros Hlen Henc. rewrite (written_fsck_shape es b Hlen Henc).
   rewrite forallb_app. apply andb_true_iff. split.
   - match goal with |- context [if ?c then _ else _] => destruct c end; reflexivity.
   - match goal with |- context [if ?c then _ else _] => destruct c end; reflexivity.
